@@ -633,6 +633,24 @@ func c02RunPersistKind(co *caseOut, in c02Input, kind string) error {
 		st.destroy()
 		recov = append(recov, res)
 	}
+	// durable states INSIDE a flush (a backend that applies a change set in several commits): each is a crash point
+	c02ReportTorn(rec, viol, func(t c02TornFlush, vb c02Batch, vv c02Viol) {
+		st, err := c02NewStore(in.Cfg.Backend)
+		if err != nil {
+			return
+		}
+		defer st.destroy()
+		c02Apply(st.st, []c02Batch{vb})
+		res := c02Recovered{K: t.NB, Res: "ok"}
+		bc, _, fail := c02Open(c02NoClose{st.st}, in.Cfg, nil)
+		if fail != "" {
+			vv("reopen-fails", c02Short(fail), t.NB)
+			return
+		}
+		go bc.Run()
+		c02CheckNode(b, bc, st.st, in.Cfg, t.NB, t.Height, -1, &res, vv)
+		bc.Close()
+	})
 	// non-triviality: a header-only batch, or a batch with several blocks, and at least three batches
 	multi, hdronly := false, false
 	prev := uint32(0)
@@ -824,6 +842,7 @@ func c02RunReset(co *caseOut, in c02Input) error {
 			viol("not-indistinguishable", fmt.Sprintf("after Reset(%d) the database differs from a node that only synchronised to %d in %d keys (trie garbage aside): %v", target, target, n, ex), len(rb))
 		}
 	}
+	c02ReportTorn(rec, viol, nil)
 	recov, err := c02ResetPrefixes(b, in, rec.batches[:n0], rb, c0, target, final, viol)
 	if err != nil {
 		return err
@@ -1034,6 +1053,7 @@ func c02RunJump(co *caseOut, in c02Input) error {
 		}
 		recov = append(recov, res)
 	}
+	c02ReportTorn(rec, viol, func(t c02TornFlush, vb c02Batch, vv c02Viol) { checkAt(t.NB, []c02Batch{vb}, vv) })
 	// virtual flushes: the content of the shared write cache before every single write of the stepped additions
 	vbad := 0
 	for _, sn := range snaps {
@@ -1339,6 +1359,10 @@ func runC02(args []string) error {
 		}
 	}
 	co.extra["x_crash_points"] = c02CrashPoints
+	co.extra["x_observed_backend_flushes"] = c02ObservedFlushes
+	if c02InfraErr != nil {
+		return c02InfraErr
+	}
 	return co.finish()
 }
 
